@@ -98,13 +98,14 @@ Proof.
     + auto.
     + destruct (f_site c); try rewrite sop_panicked; auto.
     + destruct (f_close c); [|discriminate]. destruct (_ && _); auto.
+    + destruct (spawns c s); auto. destruct (registered c s x); auto.
   - unfold resume in H. destruct (bfind t (blocked s)) as [[x b fl|]|]; [| |discriminate].
     + destruct (do_send _ _ _) eqn:E; inversion H; subst. apply do_send_panicked in E. rewrite E; auto.
     + destruct (loops s); inversion H; auto.
-  - destruct (lfind i (loops s)) as [[|p]|]; inversion H; auto.
-  - destruct (lfind i (loops s)) as [[|[|[x fl] rest]]|]; inversion H; auto.
-  - destruct (lfind i (loops s)) as [[|p]|]; try discriminate. destruct (chanq s); inversion H; auto.
-  - destruct (lfind i (loops s)) as [[|p]|]; try discriminate. destruct (closed s); inversion H; auto.
+  - destruct (lfind i (loops s)) as [[|p|p]|]; inversion H; auto.
+  - destruct (lfind i (loops s)) as [[|[|[x fl] rest]|[|[x fl] rest]]|]; inversion H; auto.
+  - destruct (lfind i (loops s)) as [[|p|p]|]; try discriminate. destruct (chanq s); inversion H; auto.
+  - destruct (lfind i (loops s)) as [[|p|p]|]; try discriminate. destruct (closed s); inversion H; auto.
 Qed.
 
 Lemma no_panic c tr s : close_idem c = true -> run c (init c) tr = Some s -> panicked s = false.
@@ -115,7 +116,7 @@ Qed.
 
 (* ================= close_waits ================= *)
 Definition CInv (c : cfg) (s : st) : Prop :=
-  (f_loop c = LoopNone -> loops s = []) /\
+  (f_loop c = LoopNone -> f_spawn c = SpawnNone -> loops s = []) /\
   (close_ret s = true -> closed s = true /\ loops s = []) /\
   late_close s = 0%nat /\
   (forall t, bfind t (blocked s) = Some WWg -> closed s = true).
@@ -165,7 +166,7 @@ Qed.
 Lemma step_cinv c : close_safe c = true ->
   forall s l s', CInv c s -> step c s l = Some s' -> CInv c s'.
 Proof.
-  intros Hc s l s' I H. unfold close_safe in Hc.
+  intros Hc s l s' I H. unfold close_safe in Hc. apply andb_true_iff in Hc. destruct Hc as [Hc Hc2].
   destruct l as [t o|t|i|i|i|i]; cbn [step] in H.
   - destruct (bfind t (blocked s)) eqn:Bt; [discriminate|]. inversion H; subst; clear H.
     destruct o; cbn [call].
@@ -195,26 +196,32 @@ Proof.
       * unfold CInv; cbn. split4; auto.
         intros _. split; auto.
         apply andb_false_iff in EW. destruct EW as [EW|EW].
-        { apply I1. destruct (f_loop c); auto; congruence. }
+        { apply I1; [destruct (f_loop c); auto; congruence|destruct (f_spawn c); auto; congruence]. }
         { destruct (loops s); auto; discriminate. }
+    + destruct (spawns c s) eqn:SP; [|exact I]. destruct (registered c s x); [|exact I].
+      unfold spawns in SP. destruct I as (I1 & I2 & I3 & I4).
+      destruct (f_spawn c) eqn:ES; try discriminate. apply negb_true_iff in SP.
+      unfold CInv; cbn. split4; auto.
+      * intros _ H; congruence.
+      * intros H. apply I2 in H. destruct H; congruence.
   - unfold resume in H. destruct (bfind t (blocked s)) as [[x b fl|]|] eqn:Bt; [| |discriminate].
     + destruct (do_send _ _ _) eqn:E; inversion H; subst; clear H.
       eapply cframe_inv; [exact I|]. eapply cframe_trans; [|eapply do_send_cframe; eauto].
       unfold cframe; cbn; repeat split; auto. intros u; apply bfind_bdel_some.
     + destruct I as (I1 & I2 & I3 & I4).
       destruct (loops s) eqn:EL; inversion H; subst; clear H. unfold CInv; cbn. split4; eauto.
-  - destruct (lfind i (loops s)) as [[|p]|] eqn:EL; inversion H; subst; clear H.
+  - destruct (lfind i (loops s)) as [[|p|p]|] eqn:EL; inversion H; subst; clear H.
     apply lfind_nonnil in EL.
     eapply cframe_inv; [exact I|]. unfold cframe; cbn; repeat split; auto. intros; contradiction.
-  - destruct (lfind i (loops s)) as [[|[|[x fl] rest]]|] eqn:EL; inversion H; subst; clear H.
-    apply lfind_nonnil in EL. destruct I as (I1 & I2 & I3 & I4).
-    destruct (close_ret s) eqn:ER; [destruct I2; auto; contradiction|].
-    unfold CInv; cbn. rewrite ER. split4; auto; try discriminate.
-    intros H; apply I1 in H; contradiction.
-  - destruct (lfind i (loops s)) as [[|p]|] eqn:EL; try discriminate.
+  - destruct (lfind i (loops s)) as [[|[|[x fl] rest]|[|[x fl] rest]]|] eqn:EL; inversion H; subst; clear H.
+    all: apply lfind_nonnil in EL; destruct I as (I1 & I2 & I3 & I4).
+    all: destruct (close_ret s) eqn:ER; [destruct I2; auto; contradiction|].
+    all: unfold CInv; cbn; rewrite ER; split4; auto; try discriminate.
+    all: intros H H'; apply I1 in H; auto; contradiction.
+  - destruct (lfind i (loops s)) as [[|p|p]|] eqn:EL; try discriminate.
     destruct (chanq s); inversion H; subst; clear H. apply lfind_nonnil in EL.
     eapply cframe_inv; [exact I|]. unfold cframe; cbn; repeat split; auto. intros; contradiction.
-  - destruct (lfind i (loops s)) as [[|p]|] eqn:EL; try discriminate.
+  - destruct (lfind i (loops s)) as [[|p|p]|] eqn:EL; try discriminate.
     destruct (closed s); inversion H; subst; clear H. apply lfind_nonnil in EL.
     eapply cframe_inv; [exact I|]. unfold cframe; cbn; repeat split; auto. intros; contradiction.
 Qed.
@@ -309,13 +316,14 @@ Proof.
       destruct (sop_td c (set_table s (tbump (key c x) (table s))) t x false true) as [-> ->]. auto.
     + destruct (match f_close c with CloseIdem => false | CloseRaw => closed s end); auto.
       destruct (_ && _); auto.
+    + destruct (spawns c s); auto. destruct (registered c s x); auto.
   - unfold resume in H. destruct (bfind t (blocked s)) as [[x b fl|]|]; [| |discriminate].
     + destruct (do_send _ _ _) eqn:E; inversion H; subst. apply do_send_td in E. auto.
     + destruct (loops s); inversion H; auto.
-  - destruct (lfind i (loops s)) as [[|p]|]; inversion H; auto.
-  - destruct (lfind i (loops s)) as [[|[|[x fl] rest]]|]; inversion H; auto.
-  - destruct (lfind i (loops s)) as [[|p]|]; try discriminate. destruct (chanq s); inversion H; auto.
-  - destruct (lfind i (loops s)) as [[|p]|]; try discriminate. destruct (closed s); inversion H; auto.
+  - destruct (lfind i (loops s)) as [[|p|p]|]; inversion H; auto.
+  - destruct (lfind i (loops s)) as [[|[|[x fl] rest]|[|[x fl] rest]]|]; inversion H; auto.
+  - destruct (lfind i (loops s)) as [[|p|p]|]; try discriminate. destruct (chanq s); inversion H; auto.
+  - destruct (lfind i (loops s)) as [[|p|p]|]; try discriminate. destruct (closed s); inversion H; auto.
 Qed.
 
 (* ================= unbind_releases ================= *)
@@ -352,7 +360,7 @@ Lemma td_ainv c s l s' : f_table c = TPerSsrc -> f_unbind c = true ->
   AInv s -> step c s l = Some s' -> AInv s'.
 Proof.
   intros HT HU I H. apply step_td in H. unfold AInv in *.
-  destruct l as [t [| |x|x|x|]|t|i|i|i|i]; destruct H as [-> ->]; auto.
+  destruct l as [t [| |x|x|x| |x]|t|i|i|i|i]; destruct H as [-> ->]; auto.
   - apply ainv_bind; auto.
   - apply ainv_unbind; auto.
   - apply ainv_bump; auto.
@@ -376,9 +384,15 @@ Lemma rebind_fresh c tr s x t s' : rebind_safe c = true -> f_table c <> TNone ->
   run c (init c) tr = Some s -> In x (dead s) ->
   step c s (Call t (OBind x)) = Some s' -> tfind (key c x) (table s') = Some 0%nat.
 Proof.
-  intros HS HT _ _ H. apply step_td in H. destruct H as [-> _].
+  intros HS HT HR Hx H. apply step_td in H. destruct H as [-> _].
   unfold rebind_safe in HS. unfold bind_table.
-  destruct (f_table c); [congruence| |]; rewrite HS, tfind_tset, Z.eqb_refl; reflexivity.
+  destruct (f_table c) eqn:ET; [congruence| |].
+  - (* per-SSRC table: Bind resets, or Unbind removed the entry (x is dead, so it is absent) *)
+    destruct (f_bind_resets c) eqn:EB.
+    + rewrite tfind_tset, Z.eqb_refl; reflexivity.
+    + cbn in HS. assert (K : key c x = x) by (unfold key; rewrite ET; reflexivity). rewrite K.
+      rewrite (unbind_releases c tr s x ET HS HR Hx). rewrite tfind_tset, Z.eqb_refl; reflexivity.
+  - rewrite HS, tfind_tset, Z.eqb_refl; reflexivity.
 Qed.
 
 (* ================= a predicate on every loop state ================= *)
@@ -412,7 +426,7 @@ End LoopsAll.
 Definition pend_ok (d : list Z) (p : list (Z * bool)) : Prop :=
   forall x, In (x, false) p -> zmem x d = false.
 Definition lst_ok (d : list Z) (l : lstate) : Prop :=
-  match l with LIdle => True | LWrite p => pend_ok d p end.
+  match l with LIdle => True | LWrite p | LOnce p => pend_ok d p end.
 
 Lemma pend_ok_mono d d' p : (forall y, zmem y d' = true -> zmem y d = true) -> pend_ok d p -> pend_ok d' p.
 Proof.
@@ -420,7 +434,7 @@ Proof.
 Qed.
 
 Lemma lst_ok_mono d d' l : (forall y, zmem y d' = true -> zmem y d = true) -> lst_ok d l -> lst_ok d' l.
-Proof. destruct l; cbn; auto. apply pend_ok_mono. Qed.
+Proof. destruct l; cbn; auto; apply pend_ok_mono. Qed.
 
 Lemma lall_ok_mono d d' ls : (forall y, zmem y d' = true -> zmem y d = true) ->
   lall (lst_ok d) ls -> lall (lst_ok d') ls.
@@ -513,7 +527,7 @@ Proof.
       destruct I as [I1 I3 I4 I5 I6]. constructor; cbn [loops chanq table dead blocked late_unbind]; auto.
       * intros HT. apply ainv_unbind; auto using unbind_safe_unbind. apply I1; auto.
       * unfold lall in *. apply Forall_map. eapply Forall_impl; [|exact I3].
-        intros [j [|p]]; cbn; auto. apply pend_ok_flag.
+        intros [j [|p|p]]; cbn; auto; apply pend_ok_flag.
       * apply pend_ok_flag; auto.
       * intros u y bb Hu. rewrite bfind_wflag in Hu.
         destruct (bfind u (blocked s)) as [[z b0 f0|]|] eqn:Bu; cbn in Hu; try discriminate.
@@ -531,6 +545,12 @@ Proof.
       destruct (match f_close c with CloseIdem => false | CloseRaw => closed s end); [constructor; auto|].
       destruct (_ && _); constructor; cbn; auto.
       intros u y b. destruct (Nat.eqb t u); [discriminate|apply I5].
+    + (* Rtcp x *)
+      destruct (spawns c s); auto. destruct (registered c s x) eqn:RG; auto.
+      destruct I as [I1 I3 I4 I5 I6]. constructor; auto. cbn.
+      apply lall_app; auto. constructor; [|constructor]. cbn. apply pend_ok_single. intros _.
+      unfold registered in RG. destruct (f_table c) eqn:HT; try discriminate.
+      destruct (zmem x (dead s)) eqn:EZ; auto. apply I1 in EZ; auto. congruence.
   - unfold resume in H. destruct (bfind t (blocked s)) as [[x b fl|]|] eqn:Bt; [| |discriminate].
     + destruct (do_send _ _ _ _) eqn:E; inversion H; subst; clear H.
       eapply do_send_uinv; [| |exact E].
@@ -540,7 +560,7 @@ Proof.
       destruct I as [I1 I3 I4 I5 I6]. constructor; cbn; auto.
       * constructor.
       * intros u y b Hu. apply bfind_bdel_some in Hu. eapply I5; eauto.
-  - destruct (lfind i (loops s)) as [[|p]|] eqn:EL; inversion H; subst; clear H.
+  - destruct (lfind i (loops s)) as [[|p|p]|] eqn:EL; inversion H; subst; clear H.
     destruct I as [I1 I3 I4 I5 I6]. constructor; cbn; auto.
     apply lall_lset; auto. apply lst_ok_norm.
     unfold snapshot. destruct (f_table c) eqn:HT.
@@ -549,19 +569,22 @@ Proof.
       apply filter_In in Hin. destruct Hin as [Hin _]. apply tfind_in in Hin.
       destruct (zmem y (dead s)) eqn:EZ; auto. apply I1 in EZ; auto. contradiction.
     + apply pend_ok_single. discriminate.
-  - destruct (lfind i (loops s)) as [[|[|[x fl] rest]]|] eqn:EL; inversion H; subst; clear H.
-    destruct I as [I1 I3 I4 I5 I6].
-    pose proof (lall_lfind _ _ _ _ I3 EL) as P. cbn in P.
-    constructor; cbn; auto.
+  - destruct (lfind i (loops s)) as [[|[|[x fl] rest]|[|[x fl] rest]]|] eqn:EL; inversion H; subst; clear H.
+    all: destruct I as [I1 I3 I4 I5 I6].
+    all: pose proof (lall_lfind _ _ _ _ I3 EL) as P; cbn in P.
+    all: constructor; cbn; auto.
     + apply lall_lset; auto. apply lst_ok_norm. eapply pend_ok_tail; eauto.
     + destruct fl; cbn; [rewrite andb_false_r; auto|]. rewrite (P x); [auto|left; auto].
-  - destruct (lfind i (loops s)) as [[|p]|] eqn:EL; try discriminate.
+    + unfold once_next. destruct rest as [|e r] eqn:ER; [apply lall_ldel; auto|].
+      apply lall_lset; auto. cbn. eapply pend_ok_tail; eauto.
+    + destruct fl; cbn; [rewrite andb_false_r; auto|]. rewrite (P x); [auto|left; auto].
+  - destruct (lfind i (loops s)) as [[|p|p]|] eqn:EL; try discriminate.
     destruct (chanq s) as [|[x fl] q] eqn:EQ; inversion H; subst; clear H.
     destruct I as [I1 I3 I4 I5 I6]. rewrite EQ in I4. constructor; cbn; auto.
     + destruct (f_recv_emits c) eqn:R; auto. apply lall_lset; auto. cbn.
       apply pend_ok_single. intros ->. apply I4; auto. left; auto.
     + eapply pend_ok_tail; eauto.
-  - destruct (lfind i (loops s)) as [[|p]|] eqn:EL; try discriminate.
+  - destruct (lfind i (loops s)) as [[|p|p]|] eqn:EL; try discriminate.
     destruct (closed s); inversion H; subst; clear H.
     destruct I as [I1 I3 I4 I5 I6]. constructor; cbn; auto. apply lall_ldel; auto.
 Qed.
@@ -580,25 +603,26 @@ Proof.
 Qed.
 
 (* ================= no_stranded ================= *)
-Definition lst_ne (l : lstate) : Prop := l <> LWrite [].
+Definition lst_ne (l : lstate) : Prop :=
+  match l with LWrite [] | LOnce [] => False | _ => True end.
 
 Definition WInv (s : st) : Prop :=
   (forall t, bfind t (blocked s) = Some WWg -> closed s = true) /\ lall lst_ne (loops s).
 
 Lemma norm_ne p : lst_ne (norm p).
-Proof. destruct p; discriminate. Qed.
+Proof. destruct p; exact I. Qed.
 
-Lemma norm_ex l : lst_ne l -> exists p, l = norm p.
+Lemma norm_ex l : lst_ne l -> (exists p, l = norm p) \/ (exists e p, l = LOnce (e :: p)).
 Proof.
-  destruct l as [|[|e p]]; intros H.
-  - exists []; auto.
-  - contradiction H; auto.
-  - exists (e :: p); auto.
+  destruct l as [|[|e p]|[|e p]]; intros H; try contradiction.
+  - left; exists []; auto.
+  - left; exists (e :: p); auto.
+  - right; eauto.
 Qed.
 
 Lemma do_send_winv c s x fl s' : WInv s -> do_send c s x fl = Some s' -> WInv s'.
 Proof.
-  intros [I1 I2] E. dsend E; split; cbn; auto. apply lall_lset; auto. discriminate.
+  intros [I1 I2] E. dsend E; split; cbn; auto. apply lall_lset; auto. exact I.
 Qed.
 
 Lemma sop_winv c s t x b fl : WInv s -> WInv (send_or_park c s t x b fl).
@@ -614,17 +638,20 @@ Proof.
     destruct o; cbn [call].
     + destruct (f_loop c); auto. destruct (closed s) eqn:EC; auto.
       destruct I as [I1 I2]. split; cbn; [rewrite <- EC; auto|].
-      apply lall_app; auto. constructor; [discriminate|constructor].
+      apply lall_app; auto. constructor; [exact I|constructor].
     + auto.
     + destruct (f_site c); auto. apply sop_winv. exact I.
     + destruct I as [I1 I2]. split; cbn [closed blocked loops].
       * intros u Hu. apply bfind_wflag_wwg in Hu. eauto.
       * unfold lall in *. apply Forall_map. eapply Forall_impl; [|exact I2].
-        intros [j [|[|e p]]]; cbn; unfold lst_ne; auto; discriminate.
+        intros [j [|[|e p]|[|e p]]]; cbn; auto.
     + destruct (f_site c); auto. apply sop_winv. exact I.
     + destruct I as [I1 I2].
       destruct (match f_close c with CloseIdem => false | CloseRaw => closed s end); [split; cbn; auto|].
       destruct (_ && _); split; cbn; auto.
+    + destruct (spawns c s); auto. destruct (registered c s x); auto.
+      destruct I as [I1 I2]. split; cbn; auto.
+      apply lall_app; auto. constructor; [exact I|constructor].
   - unfold resume in H. destruct (bfind t (blocked s)) as [[x b fl|]|] eqn:Bt; [| |discriminate].
     + destruct (do_send _ _ _) eqn:E; inversion H; subst; clear H.
       eapply do_send_winv; [|exact E]. destruct I as [I1 I2]. split; cbn; auto.
@@ -632,21 +659,23 @@ Proof.
     + destruct (loops s) eqn:EL; inversion H; subst; clear H.
       destruct I as [I1 I2]. split; cbn; [|constructor].
       intros u Hu. apply bfind_bdel_some in Hu. eauto.
-  - destruct (lfind i (loops s)) as [[|p]|] eqn:EL; inversion H; subst; clear H.
+  - destruct (lfind i (loops s)) as [[|p|p]|] eqn:EL; inversion H; subst; clear H.
     destruct I as [I1 I2]. split; cbn; auto. apply lall_lset; auto. apply norm_ne.
-  - destruct (lfind i (loops s)) as [[|[|[x fl] rest]]|] eqn:EL; inversion H; subst; clear H.
-    destruct I as [I1 I2]. split; cbn; auto. apply lall_lset; auto. apply norm_ne.
-  - destruct (lfind i (loops s)) as [[|p]|] eqn:EL; try discriminate.
+  - destruct (lfind i (loops s)) as [[|[|[x fl] rest]|[|[x fl] rest]]|] eqn:EL; inversion H; subst; clear H.
+    + destruct I as [I1 I2]. split; cbn; auto. apply lall_lset; auto. apply norm_ne.
+    + destruct I as [I1 I2]. split; cbn; auto. unfold once_next.
+      destruct rest; [apply lall_ldel; auto|apply lall_lset; auto; exact I].
+  - destruct (lfind i (loops s)) as [[|p|p]|] eqn:EL; try discriminate.
     destruct (chanq s) as [|e q] eqn:EQ; inversion H; subst; clear H.
     destruct I as [I1 I2]. split; cbn; auto.
-    destruct (f_recv_emits c); auto. apply lall_lset; auto. discriminate.
-  - destruct (lfind i (loops s)) as [[|p]|] eqn:EL; try discriminate.
+    destruct (f_recv_emits c); auto. apply lall_lset; auto. exact I.
+  - destruct (lfind i (loops s)) as [[|p|p]|] eqn:EL; try discriminate.
     destruct (closed s) eqn:EC; inversion H; subst; clear H.
     destruct I as [I1 I2]. split; cbn; auto. apply lall_ldel; auto.
 Qed.
 
 Lemma winv_init c : WInv (init c).
-Proof. split; cbn; [discriminate|]. destruct (f_loop c); repeat constructor; discriminate. Qed.
+Proof. split; cbn; [discriminate|]. destruct (f_loop c); repeat constructor. Qed.
 
 (* after the close channel is closed the head loop can finish what it writes and exit *)
 Lemma drain_head c j tl : forall p s, closed s = true -> loops s = (j, norm p) :: tl ->
@@ -662,13 +691,30 @@ Proof.
       split; [exact R|]. auto.
 Qed.
 
+(* a one-shot goroutine at the head writes what it has and is gone *)
+Lemma drain_once c j tl : forall p e s, closed s = true -> loops s = (j, LOnce (e :: p)) :: tl ->
+  exists cont s', run c s cont = Some s' /\ loops s' = tl /\ blocked s' = blocked s /\ closed s' = true.
+Proof.
+  induction p as [|e' rest IH]; intros [x fl] s HC HL.
+  - exists [LEmit j]. eexists. cbn [run step]. rewrite HL. cbn [lfind]. rewrite Nat.eqb_refl.
+    split; [reflexivity|]. cbn. rewrite Nat.eqb_refl. auto.
+  - destruct (IH e' (emit_ls s (once_next j (e' :: rest) (loops s)) x fl)) as (cont & s' & R & L & B & C).
+    + exact HC.
+    + cbn. rewrite HL. cbn. rewrite Nat.eqb_refl. reflexivity.
+    + exists (LEmit j :: cont), s'. cbn [run step]. rewrite HL. cbn [lfind]. rewrite Nat.eqb_refl.
+      rewrite HL in R. split; [exact R|]. auto.
+Qed.
+
 Lemma drain_all c : forall ls s, loops s = ls -> closed s = true -> lall lst_ne ls ->
   exists cont s', run c s cont = Some s' /\ loops s' = [] /\ blocked s' = blocked s /\ closed s' = true.
 Proof.
   induction ls as [|[j l] tl IH]; intros s HL HC HA.
   - exists [], s. cbn. auto.
-  - inversion HA as [|? ? H1 H2]; subst. cbn in H1. destruct (norm_ex l H1) as [p ->].
-    destruct (drain_head c j tl p s HC HL) as (c1 & s1 & R1 & L1 & B1 & C1).
+  - inversion HA as [|? ? H1 H2]; subst. cbn in H1.
+    assert (D : exists c1 s1, run c s c1 = Some s1 /\ loops s1 = tl /\ blocked s1 = blocked s /\ closed s1 = true).
+    { destruct (norm_ex l H1) as [[p ->]|(e & p & ->)];
+        [eapply drain_head; eauto|eapply drain_once; eauto]. }
+    destruct D as (c1 & s1 & R1 & L1 & B1 & C1).
     destruct (IH s1 L1 C1 H2) as (c2 & s2 & R2 & L2 & B2 & C2).
     exists (c1 ++ c2), s2. rewrite run_app, R1. repeat split; auto. congruence.
 Qed.
@@ -753,10 +799,10 @@ Proof.
   destruct (Nat.eqb_spec u t); [contradiction|auto].
 Qed.
 
-Lemma stuck_step c t : f_chan c = ChUnbuf \/ f_chan c = ChBuf1 ->
+Lemma stuck_step c t : f_chan c = ChUnbuf \/ f_chan c = ChBuf1 -> f_spawn c = SpawnNone ->
   forall s l s', stuck c t s -> step c s l = Some s' -> stuck c t s'.
 Proof.
-  intros HC s l s' S H. pose proof S as (S1 & S2 & S3 & (x & b & f & S4)).
+  intros HC HN s l s' S H. pose proof S as (S1 & S2 & S3 & (x & b & f & S4)).
   destruct l as [u o|u|i|i|i|i]; cbn [step] in H; try (rewrite S2 in H; discriminate).
   - destruct (bfind u (blocked s)) eqn:Bu; [discriminate|]. inversion H; subst; clear H.
     assert (N : u <> t) by (intros ->; congruence).
@@ -774,17 +820,18 @@ Proof.
         [split; [|split; [|split]]; cbn; auto; exists x, b, f; auto|].
       destruct (_ && _); (split; [|split; [|split]]); cbn; auto; exists x, b, f; cbn; auto.
       destruct (Nat.eqb_spec u t); [contradiction|auto].
+    + unfold spawns. rewrite HN. exact S.
   - unfold resume in H. destruct (bfind u (blocked s)) as [[y bb ff|]|] eqn:Bu; [| |discriminate].
     + rewrite do_send_stuck in H; auto; discriminate.
     + rewrite S2 in H. inversion H; subst; clear H. split; [|split; [|split]]; cbn; auto.
       exists x, b, f. cbn. rewrite bfind_bdel. destruct (Nat.eqb_spec u t); [subst; congruence|auto].
 Qed.
 
-Lemma stuck_forever c t s : f_chan c = ChUnbuf \/ f_chan c = ChBuf1 -> stuck c t s ->
+Lemma stuck_forever c t s : f_chan c = ChUnbuf \/ f_chan c = ChBuf1 -> f_spawn c = SpawnNone -> stuck c t s ->
   forall cont s', run c s cont = Some s' -> bfind t (blocked s') <> None.
 Proof.
-  intros HC S cont s' HR.
-  assert (S' : stuck c t s') by (exact (run_inv c (stuck c t) (stuck_step c t HC) cont s s' S HR)).
+  intros HC HN S cont s' HR.
+  assert (S' : stuck c t s') by (exact (run_inv c (stuck c t) (stuck_step c t HC HN) cont s s' S HR)).
   destruct S' as (_ & _ & _ & (x & b & f & B)). congruence.
 Qed.
 
@@ -795,7 +842,7 @@ Lemma rfc8888_unfixed_stranded : exists tr s t,
 Proof.
   exists [Call 0 OBindW; Call 0 OClose; LExit 1; Resume 0; Call 1 (OTraffic 1)].
   eexists. exists 1%nat. split; [vm_compute; reflexivity|]. split; [cbn; discriminate|].
-  apply (stuck_forever _ 1%nat); [left; reflexivity|].
+  apply (stuck_forever _ 1%nat); [left; reflexivity|reflexivity|].
   split; [|split; [|split]]; cbn; auto; [discriminate|]. exists 1, false, true. reflexivity.
 Qed.
 
@@ -806,14 +853,14 @@ Lemma intervalpli_unfixed_stranded : exists tr s t,
 Proof.
   exists [Call 0 OBindW; Call 0 OClose; LExit 1; Resume 0; Call 1 (OBind 1); Call 2 (OBind 2)].
   eexists. exists 2%nat. split; [vm_compute; reflexivity|]. split; [cbn; discriminate|].
-  apply (stuck_forever _ 2%nat); [right; reflexivity|].
+  apply (stuck_forever _ 2%nat); [right; reflexivity|reflexivity|].
   split; [|split; [|split]]; cbn; auto; [discriminate|]. exists 2, true, false. reflexivity.
 Qed.
 
 (* ================= one_in_flight ================= *)
 (* what a loop is about to write never mentions an SSRC twice *)
 Definition lst_nd (l : lstate) : Prop :=
-  match l with LIdle => True | LWrite p => NoDup (map fst p) end.
+  match l with LIdle => True | LWrite p | LOnce p => NoDup (map fst p) end.
 
 Definition OInv (s : st) : Prop := NoDup (map fst (table s)) /\ lall lst_nd (loops s).
 
@@ -876,7 +923,7 @@ Lemma step_oinv c s l s' : OInv s -> step c s l = Some s' -> OInv s'.
 Proof.
   intros [I1 I2] H. split.
   - apply step_td in H.
-    destruct l as [t [| |x|x|x|]|t|i|i|i|i]; destruct H as [-> _]; auto.
+    destruct l as [t [| |x|x|x| |x]|t|i|i|i|i]; destruct H as [-> _]; auto.
     + unfold bind_table. destruct (f_table c); auto;
         (destruct (f_bind_resets c); [|destruct (tfind (key c x) (table s))]); auto using nodup_tset.
     + unfold unbind_table. destruct (f_unbind c); auto.
@@ -891,23 +938,26 @@ Proof.
         apply lall_app; auto. constructor; cbn; auto.
       * destruct (f_site c); auto. apply sop_lnd. auto.
       * cbn. unfold lall in *. apply Forall_map. eapply Forall_impl; [|exact I2].
-        intros [j [|p]]; cbn; auto. rewrite fst_flag; auto.
+        intros [j [|p|p]]; cbn; auto; rewrite fst_flag; auto.
       * destruct (f_site c); auto. apply sop_lnd. auto.
       * destruct (match f_close c with CloseIdem => false | CloseRaw => closed s end); auto.
         destruct (_ && _); auto.
+      * destruct (spawns c s); auto. destruct (registered c s x); auto. cbn.
+        apply lall_app; auto. constructor; [|constructor]. cbn. repeat constructor. cbn; tauto.
     + unfold resume in H. destruct (bfind t (blocked s)) as [[x b fl|]|] eqn:Bt; [| |discriminate].
       * destruct (do_send _ _ _ _) eqn:E; inversion H; subst; clear H.
         eapply do_send_lnd; [|exact E]. auto.
       * destruct (loops s) eqn:EL; inversion H; subst; clear H. constructor.
-    + destruct (lfind i (loops s)) as [[|p]|] eqn:EL; inversion H; subst; clear H. cbn.
+    + destruct (lfind i (loops s)) as [[|p|p]|] eqn:EL; inversion H; subst; clear H. cbn.
       apply lall_lset; auto. apply lst_nd_norm, nodup_snapshot; auto.
-    + destruct (lfind i (loops s)) as [[|[|[x fl] rest]]|] eqn:EL; inversion H; subst; clear H. cbn.
-      pose proof (lall_lfind _ _ _ _ I2 EL) as P. cbn in P. inversion P; subst.
-      apply lall_lset; auto. apply lst_nd_norm; auto.
-    + destruct (lfind i (loops s)) as [[|p]|] eqn:EL; try discriminate.
+    + destruct (lfind i (loops s)) as [[|[|[x fl] rest]|[|[x fl] rest]]|] eqn:EL; inversion H; subst; clear H; cbn.
+      all: pose proof (lall_lfind _ _ _ _ I2 EL) as P; cbn in P; inversion P; subst.
+      * apply lall_lset; auto. apply lst_nd_norm; auto.
+      * unfold once_next. destruct rest; [apply lall_ldel; auto|apply lall_lset; auto].
+    + destruct (lfind i (loops s)) as [[|p|p]|] eqn:EL; try discriminate.
       destruct (chanq s) as [|e q]; inversion H; subst; clear H. cbn.
       destruct (f_recv_emits c); auto. apply lall_lset; auto. apply lst_nd_single.
-    + destruct (lfind i (loops s)) as [[|p]|] eqn:EL; try discriminate.
+    + destruct (lfind i (loops s)) as [[|p|p]|] eqn:EL; try discriminate.
       destruct (closed s); inversion H; subst; clear H. cbn. apply lall_ldel; auto.
 Qed.
 
@@ -926,13 +976,91 @@ Proof.
   destruct I as [_ I]. exact (lall_lfind _ _ _ _ I HL).
 Qed.
 
+(* ================= which calls can park ================= *)
+Lemma bfind_wflag_none t x b : bfind t b = None -> bfind t (map (fun e => (fst e, wflag x (snd e))) b) = None.
+Proof. intros H. rewrite bfind_wflag, H. reflexivity. Qed.
+
+Lemma sop_nopark c s t x b fl s1 : bfind t (blocked s) = None -> do_send c s x fl = Some s1 ->
+  bfind t (blocked (send_or_park c s t x b fl)) = None.
+Proof.
+  intros N E. unfold send_or_park. rewrite E. apply do_send_blocked in E. rewrite E. exact N.
+Qed.
+
+(* after a Close has returned, every later call returns without parking *)
+Lemma calls_after_close_return c tr s t o s' : close_safe c = true -> chan_safe c = true ->
+  run c (init c) tr = Some s -> close_ret s = true ->
+  step c s (Call t o) = Some s' -> bfind t (blocked s') = None.
+Proof.
+  intros HC HS HR CR H.
+  assert (I : CInv c s) by (exact (run_inv c (CInv c) (step_cinv c HC) tr (init c) s (cinv_init c) HR)).
+  destruct I as (_ & I2 & _ & _). destruct (I2 CR) as [CL LS].
+  cbn [step] in H. destruct (bfind t (blocked s)) eqn:Bt; [discriminate|]. inversion H; subst; clear H.
+  destruct o; cbn [call].
+  - destruct (f_loop c); auto. rewrite CL. auto.
+  - auto.
+  - destruct (f_site c); auto.
+    match goal with |- context [send_or_park c ?s1 t x true false] =>
+      destruct (do_send_closed_some c s1 x false HS CL) as [s2 E]; eapply sop_nopark; eauto end.
+  - cbn. apply bfind_wflag_none; auto.
+  - destruct (f_site c); auto.
+    match goal with |- context [send_or_park c ?s1 t x false true] =>
+      destruct (do_send_closed_some c s1 x true HS CL) as [s2 E]; eapply sop_nopark; eauto end.
+  - rewrite LS, andb_false_r.
+    destruct (match f_close c with CloseIdem => false | CloseRaw => closed s end); auto.
+  - destruct (spawns c s); auto. destruct (registered c s x); auto.
+Qed.
+
+(* Bind*/Unbind*/BindRTCP* never park, in any reachable state, when a Bind never does a blocking send *)
+Definition bind_nonblocking (c : cfg) : bool :=
+  match f_site c with SendOnBind => match f_chan c with ChNone | ChBufNB => true | _ => false end | _ => true end.
+
+Lemma do_send_nb_some c s x fl : match f_chan c with ChNone | ChBufNB => true | _ => false end = true ->
+  exists s', do_send c s x fl = Some s'.
+Proof.
+  unfold do_send. intros H. destruct (f_chan c); try discriminate; eauto. destruct (closed s); eauto.
+Qed.
+
+Lemma lifecycle_calls_never_park c tr s t o s' : bind_nonblocking c = true ->
+  run c (init c) tr = Some s -> (match o with OTraffic _ | OClose => False | _ => True end) ->
+  step c s (Call t o) = Some s' -> bfind t (blocked s') = None.
+Proof.
+  intros HB _ HO H. unfold bind_nonblocking in HB.
+  cbn [step] in H. destruct (bfind t (blocked s)) eqn:Bt; [discriminate|]. inversion H; subst; clear H.
+  destruct o; cbn [call]; try contradiction.
+  - destruct (f_loop c); auto. destruct (closed s); auto.
+  - auto.
+  - destruct (f_site c); auto.
+    match goal with |- context [send_or_park c ?s1 t x true false] =>
+      destruct (do_send_nb_some c s1 x false HB) as [s2 E]; eapply sop_nopark; eauto end.
+  - cbn. apply bfind_wflag_none; auto.
+  - destruct (spawns c s); auto. destruct (registered c s x); auto.
+Qed.
+
+(* and: a Close parks only on the WaitGroup (which no_stranded shows is always released) *)
+Lemma close_parks_only_on_wg c tr s t s' w : run c (init c) tr = Some s ->
+  step c s (Call t OClose) = Some s' -> bfind t (blocked s') = Some w -> w = WWg.
+Proof.
+  intros _ H. cbn [step] in H. destruct (bfind t (blocked s)) eqn:Bt; [discriminate|]. inversion H; subst; clear H.
+  cbn [call].
+  destruct (match f_close c with CloseIdem => false | CloseRaw => closed s end); [cbn; congruence|].
+  destruct (_ && _); cbn; [|congruence].
+  rewrite Nat.eqb_refl. intros E; inversion E; auto.
+Qed.
+
+Lemma bind_nonblocking_instances :
+  forallb bind_nonblocking [nack_generator_cfg; nack_responder_cfg; report_receiver_cfg; report_sender_cfg;
+    twcc_sender_cfg; rfc8888_cfg; intervalpli_cfg; stats_cfg; packetdump_cfg; pacing_cfg; gcc_cfg;
+    jitterbuffer_cfg; flexfec_cfg; chain_cfg] = true.
+Proof. reflexivity. Qed.
+
 (* ================= instances and refutations (concrete witness traces) ================= *)
 Lemma safe_instances :
   safe_cfg nack_generator_cfg = true /\ safe_cfg nack_responder_cfg = true /\
   safe_cfg report_receiver_cfg = true /\ safe_cfg report_sender_cfg = true /\
   safe_cfg twcc_sender_cfg = true /\ safe_cfg intervalpli_cfg = true /\
   safe_cfg packetdump_cfg = true /\ safe_cfg pacing_cfg = true /\
-  safe_cfg flexfec_cfg = true /\ safe_cfg chain_cfg = true /\ safe_cfg gcc_cfg = true.
+  safe_cfg flexfec_cfg = true /\ safe_cfg chain_cfg = true /\ safe_cfg gcc_cfg = true /\
+  safe_cfg stats_cfg = true.
 Proof. repeat split; reflexivity. Qed.
 
 (* rfc8888 (also after the fix) has no Unbind: reports about an unbound SSRC continue *)
@@ -952,8 +1080,8 @@ Qed.
 
 (* stats keeps the recorder: after Unbind the entry exists and a rebind is not fresh *)
 Lemma stats_rebind_refuted : exists tr s t s',
-  run stats_cfg (init stats_cfg) tr = Some s /\ In 1 (dead s) /\ tfind 1 (table s) <> None /\
-  step stats_cfg s (Call t (OBind 1)) = Some s' /\ tfind 1 (table s') <> Some 0%nat.
+  run stats_unfixed_cfg (init stats_unfixed_cfg) tr = Some s /\ In 1 (dead s) /\ tfind 1 (table s) <> None /\
+  step stats_unfixed_cfg s (Call t (OBind 1)) = Some s' /\ tfind 1 (table s') <> Some 0%nat.
 Proof.
   exists [Call 0 (OBind 1); Call 0 (OTraffic 1); Call 0 (OUnbind 1)].
   eexists. exists 0%nat. eexists.
@@ -993,4 +1121,20 @@ Lemma gcc_unfixed_double_close_panics : exists tr s,
 Proof.
   exists [Call 0 OClose; Call 1 OClose].
   eexists. split; [vm_compute; reflexivity|]. reflexivity.
+Qed.
+
+(* nack responder before its fix: Close returns while a resend goroutine is alive; it writes afterwards *)
+Lemma nack_responder_unfixed_close_refuted : exists tr s,
+  run nack_responder_unfixed_cfg (init nack_responder_unfixed_cfg) tr = Some s /\ close_ret s = true /\ late_close s <> 0%nat.
+Proof.
+  exists [Call 0 OBindR; Call 0 (OBind 1); Call 0 (OTraffic 1); Call 1 (ORtcp 1); Call 0 OClose; LEmit 1].
+  eexists. split; [vm_compute; reflexivity|]. cbn. split; [reflexivity|discriminate].
+Qed.
+
+(* ... and a NACK read after Close is still answered *)
+Lemma nack_responder_unfixed_serves_after_close : exists tr s,
+  run nack_responder_unfixed_cfg (init nack_responder_unfixed_cfg) tr = Some s /\ close_ret s = true /\ loops s <> [].
+Proof.
+  exists [Call 0 OBindR; Call 0 (OBind 1); Call 0 (OTraffic 1); Call 0 OClose; Call 1 (ORtcp 1)].
+  eexists. split; [vm_compute; reflexivity|]. cbn. split; [reflexivity|discriminate].
 Qed.
